@@ -89,6 +89,7 @@ class _FnWalker(object):
         self.res = res
         self.rows = []
         self.checks = []            # (fname, ordinal, guard text) of unexpected_message aborts
+        self.early = []             # (fname, ordinal, guard text, value) of early_data_ok assignments
         self.tracked_in_loop = set()
 
     # ---- expressions: find _getMsg calls in evaluation order
@@ -197,6 +198,9 @@ class _FnWalker(object):
             return
         if isinstance(s, ast.Assign):
             self.scan_expr(s.value, env, guards)
+            for t in s.targets:
+                if isinstance(t, ast.Attribute) and t.attr == 'early_data_ok':
+                    self.early.append((self.fname, len(self.early), ' && '.join(guards), _src(s.value)))
             flt = self.filter_form(s, env)
             if flt is not None:
                 name, alts = flt
@@ -280,6 +284,7 @@ def extract(repo=None):
     res = _Resolver(consts)
     rows = []
     del CHECKS[:]
+    del EARLY[:]
     for rel in FILES:
         path = os.path.join(repo, rel)
         with open(path) as f:
@@ -305,15 +310,36 @@ def extract(repo=None):
                 w.walk(fn.body, {}, [])
                 rows += w.rows
                 CHECKS.extend(w.checks)
+                EARLY.extend(w.early)
                 n_seen += len(w.rows)
         if n_seen != n_attr:
             raise Refuse('%s: %d mentions of _getMsg but %d call sites extracted' % (rel, n_attr, n_seen))
     if not rows:
         raise Refuse('no _getMsg call sites found')
+    # the record layer's side of the early-data window
+    with open(os.path.join(repo, 'tlslite/recordlayer.py')) as f:
+        tree = ast.parse(f.read())
+    n_mentions = 0
+    for cls in tree.body:
+        if isinstance(cls, ast.ClassDef):
+            for fn in cls.body:
+                if isinstance(fn, (ast.FunctionDef, ast.AsyncFunctionDef)):
+                    if fn.name == 'early_data_ok':
+                        continue            # the property itself
+                    w = _FnWalker('RecordLayer.' + fn.name if cls.name == 'RecordLayer' else cls.name + '.' + fn.name, res)
+                    w.walk(fn.body, {}, [])
+                    EARLY.extend(w.early)
+                    n_mentions += sum(1 for n in ast.walk(fn) if isinstance(n, ast.Attribute) and n.attr == 'early_data_ok'
+                                      and isinstance(n.ctx, ast.Store))
+    if n_mentions != sum(1 for e in EARLY if e[0].startswith(('RecordLayer.', 'RecordSocket.', 'ConnectionState.'))):
+        raise Refuse('recordlayer.py: early_data_ok is stored to in a form that was not extracted')
+    if not EARLY:
+        raise Refuse('no early_data_ok assignment found')
     return rows
 
 
 CHECKS = []
+EARLY = []
 
 
 def defrag_sources(repo=None):
@@ -396,6 +422,12 @@ def to_coq(rows):
     out.append(';\n'.join('  (%s, %d, %s)' % (_s(f), k, _s(g)) for (f, k, g) in CHECKS))
     out.append('].')
     out.append('')
+    out.append('(* every assignment to early_data_ok (the window in which undecryptable records are dropped):')
+    out.append('   method, ordinal, enclosing conditions, assigned value *)')
+    out.append('Definition extracted_early_data : list (string * Z * string * string) := [')
+    out.append(';\n'.join('  (%s, %d, %s, %s)' % (_s(f), k, _s(g), _s(v)) for (f, k, g, v) in EARLY))
+    out.append('].')
+    out.append('')
     out.append('(* the defragmenter pieces those checks rely on, as normalised source text *)')
     out.append('Definition extracted_defrag : list (string * string) := [')
     out.append(';\n'.join('  (%s, %s)' % (_s(a), _s(b2)) for (a, b2) in defrag_sources()))
@@ -438,5 +470,7 @@ if __name__ == '__main__':
         print(r)
     for c in CHECKS:
         print('CHECK', c)
+    for c in EARLY:
+        print('EARLY', c)
     for d in defrag_sources():
         print('DEFRAG', d)
